@@ -260,6 +260,18 @@ ApiSubscribe(l, f, q) ==
   /\ UNCHANGED <<conn, sess, ret, closed>>
   /\ Log([a |-> "apisubscribe", l |-> l, f |-> Join(f), q |-> q])
 
+\* The callback of the in-process subscriber reports an error while the retained messages are handed to it (kind =
+\* "failing"): Server.Subscribe returns that error after the first message; the subscription is registered all the same,
+\* and nothing else has changed - in particular the retained messages are what they were (stored QoS included).
+\* Only with exactly one matching retained message (so that "the first" is determined).
+ApiSubscribeErr(l, f, q) ==
+  /\ l \in Locals /\ ValidFilter(f)
+  /\ Cardinality(RetainedFor(ret, f, Min(q, MaxQos))) = 1
+  /\ subs' = {s \in subs : ~(s.who = l /\ s.f = f)} \cup {[who |-> l, f |-> f, q |-> Min(q, MaxQos)]}
+  /\ out' = GrpIf(O0, l, RetainedFor(ret, f, Min(q, MaxQos)))
+  /\ UNCHANGED <<conn, sess, ret, closed>>
+  /\ Log([a |-> "apisubscribe", l |-> l, f |-> Join(f), q |-> q, kind |-> "failing"])
+
 ApiUnsubscribe(l, f) ==
   /\ l \in Locals /\ (\E s \in subs : s.who = l /\ s.f = f)
   /\ subs' = {s \in subs : ~(s.who = l /\ s.f = f)}
